@@ -49,14 +49,25 @@ var TrustedBase = []string{
 func importObligations(c *core.Ctx, run func(*core.Ctx), R string, sel func(*core.Obligation) bool) {
 	key := reflect.ValueOf(run).Pointer()
 	if c.Importing[key] {
+		c.SkippedImport = true
 		return // mutual import: the outer evaluation of that rule set is the one that counts
 	}
-	tmp := core.NewCtx(c.P, c.Property)
-	tmp.Importing = map[uintptr]bool{key: true}
-	for k := range c.Importing {
-		tmp.Importing[k] = true
+	var tmp *core.Ctx
+	if v, ok := c.P.Memo.Load(key); ok {
+		tmp = v.(*core.Ctx)
+	} else {
+		tmp = core.NewCtx(c.P, c.Property)
+		tmp.Importing = map[uintptr]bool{key: true}
+		for k := range c.Importing {
+			tmp.Importing[k] = true
+		}
+		run(tmp)
+		if tmp.SkippedImport {
+			c.SkippedImport = true
+		} else {
+			c.P.Memo.Store(key, tmp)
+		}
 	}
-	run(tmp)
 	for _, o := range tmp.Obs {
 		if !sel(o) {
 			continue
